@@ -72,12 +72,38 @@ THEOREMS = [
     'C03_number_items_distinct',
     'C03_expand_macro_den',
     'C03_expand_facet_zero_is_last',
+    'C03_convert_entry_sound',
+    'C03_written_inside',
+    'C03_box_written',
+    'C03_rpp_written',
+    'C03_sph_written',
+    'C03_rcc_written',
+    'C03_rhp15_written',
+    'C03_rhp9_written',
+    'C03_rec12_written',
+    'C03_rec10_written',
+    'C03_trc_written',
+    'C03_ell_axis_written',
+    'C03_ell_foci_written',
+    'C03_wed_written',
+    'C03_arb_written',
+    'C03_box_written_solid',
+    'C03_wed_written_solid',
+    'C03_box_general_facet_k',
+    'C03_box_general_written',
+    'C03_para_facets_right',
+    'C03_pot_transform_facet',
+    'C03_pot_transform_whole',
+    'C03_pot_transform_out_of_range',
 ]
 TRUSTED = [
-    'hand-written model coq/C03/Vec.v + Model.v (modelled, tied by execution '
+    'hand-written model coq/C03/Vec.v + Model.v + Convert.v (modelled, tied by execution '
     'only); numpy matmul in transformation_quad modelled as a plain 4x4 '
     'product; x**2 modelled as x*x; math.cos/sin/sqrt vs the binary64 series '
     'of Base/Scalar.v absorbed by the 1e-9 tolerance',
+    'Spec coq/C03/SpecT4.v: reading of the TRIPOLI-4 SURF types (DESIGN '
+    'Appendix B) and of a transformation as p -> B (p - O) with an orthogonal '
+    'B (normalize_transform / adjust_matrix are not modelled here)',
     'Spec coq/C03/Spec.v: MCNP facet numbering and outward orientation as in '
     'DESIGN Appendix A; ELL with a positive last entry specified as MCNP '
     'behaves according to the source comment of MacroBodies.ell (b^2 = L^2 - '
@@ -106,7 +132,8 @@ ASSUMPTIONS = [
     'every facet plane)',
 ]
 HEADER = ('From Coq Require Import List NArith ZArith Bool PrimFloat.\n'
-          'From T4V Require Import Base.Scalar C03.Vec C03.Model C03.Exec.\n')
+          'From T4V Require Import Base.Scalar C03.Vec C03.Model C03.Convert '
+          'C03.Exec.\n')
 
 EPS = 1e-7
 
@@ -708,6 +735,78 @@ def impl_number(dic):
     return [(key, [int(t) for t in matching[key]]) for key, _ in dic]
 
 
+# ---- conversion of the entries to TRIPOLI-4 surfaces -------------------------
+
+def tr12(tr):
+    '''(origin, matrix) -> the normalised 12-number transformation.'''
+    return [float(x) for x in tr[0]] + [float(x) for x in tr[1]]
+
+
+def _t4_out(coll):
+    return [(surf.type_surface.name, [float(x) for x in surf.param_surface],
+             int(side)) for surf, side in coll.surfs]
+
+
+def impl_convert_entry(typ, params, side, tr):
+    '''to_surface_mcnp (with the TR of the surface card when tr is given) +
+    conversion_surface_params + SurfaceCollection.join on one entry.'''
+    from t4_geom_convert.Kernel.FileHandlers.Parser.ParseMCNPSurface import \
+        to_surface_mcnp
+    from t4_geom_convert.Kernel.Surface.ConversionSurfaceMCNPToT4 import \
+        conversion_surface_params
+    from t4_geom_convert.Kernel.Surface.SurfaceCollection import \
+        SurfaceCollection
+    from t4_geom_convert.Kernel.Surface.ESurfaceTypeMCNP import \
+        ESurfaceTypeMCNP as MS
+    try:
+        surf = to_surface_mcnp(7, '', '5' if tr else None, MS[typ],
+                               [float(x) for x in params],
+                               {5: tr12(tr)} if tr else {})
+        coll = conversion_surface_params(7, surf)
+        joined = SurfaceCollection.join([(coll, side)])
+    except Exception as exc:      # pylint: disable=broad-except
+        return ('err', ERRMAP.get(type(exc).__name__,
+                                  'EOther_' + type(exc).__name__))
+    return ('ok', _t4_out(joined))
+
+
+def impl_pot_transform(entries, sub, sign, tr):
+    '''CellConversion.pot_transform on the reference (+-9, sub) to a body
+    whose entries are given; returns the new collection and the reference.'''
+    from t4_geom_convert.Kernel.FileHandlers.Parser.ParseMCNPSurface import \
+        to_surface_mcnp
+    from t4_geom_convert.Kernel.Surface.CollectionDict import CollectionDict
+    from t4_geom_convert.Kernel.Surface.ESurfaceTypeMCNP import \
+        ESurfaceTypeMCNP as MS
+    from t4_geom_convert.Kernel.Volume.CellConversion import CellConversion
+    from MIP.geom.semantics import Surface
+    try:
+        dic_mcnp = CollectionDict()
+        dic_mcnp[9] = [(to_surface_mcnp(9, '', None, MS[t], [float(x) for x in p],
+                                        {}), s) for t, p, s in entries]
+        dic_t4 = CollectionDict()
+        conv = CellConversion(100, 200, {}, dic_t4, dic_mcnp, {})
+        ref = conv.pot_transform(Surface(9 * sign, sub), tr12(tr))
+        coll = dic_t4[abs(ref)]
+    except Exception as exc:      # pylint: disable=broad-except
+        return ('err', ERRMAP.get(type(exc).__name__,
+                                  'EOther_' + type(exc).__name__)), None
+    return ('ok', _t4_out(coll)), (int(ref.surface), ref.sub)
+
+
+def coq_fentry(ent):
+    typ, params, side = ent
+    return cpair(TYPEMAP.get(typ, 'T_' + typ), clist(cfloat(x) for x in params),
+                 cz(side))
+
+
+def coq_t4_out(out):
+    if out[0] == 'err':
+        return f'(Err {out[1]})'
+    return '(Ok ' + clist(cpair(t, clist(cfloat(x) for x in prm), cz(side))
+                          for t, prm, side in out[1]) + ')'
+
+
 # ---- run ---------------------------------------------------------------------
 
 def run(res, tier, seed, proofs_ok):
@@ -827,6 +926,100 @@ def run(res, tier, seed, proofs_ok):
                            'observed': out, 'model': model,
                            'theorem_or_correspondence': 'tie:body'},
                           found_input=False)
+
+    # conversion of every entry to its TRIPOLI-4 surface (plain, and with the
+    # TR of the surface card); pot_transform on facet references
+    cv_cases, cv_meta = [], []
+    pt_cases, pt_meta = [], []
+    step = 1 if not quick else 3
+    for idx, (mn, prm, fault, out) in enumerate(meta):
+        if out[0] != 'ok' or idx % step:
+            continue
+        tr = gen_tr(rng) if rng.random() < 0.6 else None
+        for ent in out[1]:
+            got = impl_convert_entry(ent[0], ent[1], ent[2], tr)
+            res.count('convert:' + (got[1] if got[0] == 'err'
+                                    else '+'.join(t for t, _, _ in got[1])))
+            if has_nan(('ok', [(0, e[1], 0) for e in got[1]])
+                       if got[0] == 'ok' else got):
+                continue
+            cv_cases.append(cpair(clist(cfloat(x) for x in (tr12(tr) if tr else [])),
+                                  coq_fentry(ent), coq_t4_out(got)))
+            cv_meta.append((mn, prm, ent, tr, got))
+        if fault is None and len(pt_cases) < (250 if quick else 2500):
+            ptr = gen_tr(rng)
+            nent = len(out[1])
+            sub = rng.choice([None, None] + list(range(0, nent + 2)))
+            sign = rng.choice([1, -1])
+            got, ref = impl_pot_transform(out[1], sub, sign, ptr)
+            res.count('pot_transform:' + ('err' if got[0] == 'err' else
+                                          'whole' if sub is None else 'facet'))
+            if got[0] == 'ok':
+                # the new reference is a plain surface number carrying the
+                # sign of the old one and no facet part
+                if ref[1] is not None or (ref[0] > 0) != (sign > 0):
+                    res.violation('impl-violation',
+                                  f'pot_transform of {sign * 9}.{sub} returns '
+                                  f'the reference {ref}',
+                                  {'input': {'body': mn, 'params': prm,
+                                             'sub': sub, 'tr': ptr}},
+                                  found_input=True)
+                want_len = nent if sub is None else 1
+                if len(got[1]) != want_len:
+                    res.violation('impl-violation',
+                                  f'pot_transform of {mn}.{sub}: '
+                                  f'{len(got[1])} surfaces, expected '
+                                  f'{want_len}',
+                                  {'input': {'body': mn, 'params': prm,
+                                             'sub': sub, 'tr': ptr}},
+                                  found_input=True)
+            elif sub is not None and 1 <= sub <= nent:
+                res.violation('impl-violation',
+                              f'pot_transform rejects facet {sub} of {mn}: '
+                              f'{got}', {'input': {'body': mn, 'params': prm,
+                                                   'sub': sub, 'tr': ptr}},
+                              found_input=True)
+            if not (got[0] == 'ok' and any(x != x for _, pr, _ in got[1]
+                                           for x in pr)):
+                pt_cases.append(cpair(
+                    clist(cfloat(x) for x in tr12(ptr)),
+                    clist(coq_fentry(e) for e in out[1]),
+                    copt(sub, cnat), coq_t4_out(got)))
+                pt_meta.append((mn, prm, sub, ptr, got))
+    bad, errs = run_cases(res, 'c03_convert', 'convert_case', 'check_convert',
+                          cv_cases)
+    res.obligation(f'tie:convert ({len(cv_cases)} entries: to_surface_mcnp + '
+                   'transformation + conversion_surface_params + join = model '
+                   'convert_entry at binary64)', not bad and not errs,
+                   f'{len(bad)} disagreements {errs[:1]}')
+    for idx in bad[:5]:
+        mn, prm, ent, tr, got = cv_meta[idx]
+        model, _ = common.coq_eval(
+            HEADER, 'convert_entry FS (transf_of '
+            f'{clist(cfloat(x) for x in (tr12(tr) if tr else []))}) '
+            f'{coq_fentry(ent)}')
+        res.violation('correspondence',
+                      f'conversion of the entry {ent} of {mn.upper()} {prm} '
+                      f'(TR {tr}): impl={got} model={model}',
+                      {'input': {'entry': list(ent), 'tr': tr},
+                       'observed': got, 'model': model,
+                       'theorem_or_correspondence': 'tie:convert'},
+                      found_input=False)
+    bad, errs = run_cases(res, 'c03_ptransf', 'ptransf_case', 'check_ptransf',
+                          pt_cases)
+    res.obligation(f'tie:pot_transform ({len(pt_cases)} references n / n.k '
+                   'under a transformation: new collection = model '
+                   'pot_transform_ref)', not bad and not errs,
+                   f'{len(bad)} disagreements {errs[:1]}')
+    for idx in bad[:5]:
+        mn, prm, sub, ptr, got = pt_meta[idx]
+        res.violation('correspondence',
+                      f'pot_transform of reference .{sub} to {mn.upper()} '
+                      f'{prm} under {ptr}: impl={got} differs from the model',
+                      {'input': {'body': mn, 'params': prm, 'sub': sub,
+                                 'tr': ptr}, 'observed': got,
+                       'theorem_or_correspondence': 'tie:pot_transform'},
+                      found_input=False)
 
     # to_surfaces_macro: dispatch, order, sides
     from t4_geom_convert.Kernel.Surface.ESurfaceTypeMCNP import \
@@ -968,7 +1161,7 @@ def run(res, tier, seed, proofs_ok):
                       found_input=False)
 
     # ---- 3. sweep with the independent oracle ----
-    n_decks = 220 if quick else 2000
+    n_decks = 150 if quick else 2000
     n_random, n_near = (60, 4) if quick else (200, 8)
     pool = [(mn, prm) for mn, prm, fault in inputs if fault is None]
     rng.shuffle(pool)
@@ -1027,11 +1220,11 @@ def run(res, tier, seed, proofs_ok):
     res.count('sweep:trc_facet1_other_sheet', skipped_sheet)
     res.obligation(f'sweep: {checked} membership comparisons of probe cells '
                    '-b, +b, -b.k, +b.k against mcnpref.macro_facets',
-                   checked > (100000 if quick else 1000000),
+                   checked > (80000 if quick else 1000000),
                    f'{checked} comparisons')
 
     # ---- 3b. transformed cells referencing one body in several ways ----
-    n_tdecks = 70 if quick else 700
+    n_tdecks = 60 if quick else 700
     tchecked = 0
     tpool = [b for b in pool if n_facets(*b) >= 1]
     # fixed cases first: the RPP of the seeded-change demo under every placement
